@@ -9,7 +9,7 @@ Extraction "region_model.ml"
   find_region_by_key try_find locate_by_id
   batch_load_range batch_load_ranges load_regions_in_range locate_key_range batch_locate
   group_assign groups_of list_region_ids
-  invalidate update_leader rpc_ctx on_send_fail re_resolve on_bucket_version_not_match update_buckets locate_bucket_full bk_ver on_epoch_not_match gc
+  invalidate update_leader rpc_ctx on_send_fail re_resolve switch_work set_work invalidate_r store_epoch on_bucket_version_not_match update_buckets locate_bucket_full bk_ver on_epoch_not_match gc
   upd_entry expire_r set_flags get_by_verid entry_at
   merge_all ranges_after_key regions_have_gap new_region r_verid store_reply codec_pd new_region_peers
   Z.of_N (* only so that the type z exists for ocaml/common/common.ml *).
